@@ -4,5 +4,7 @@ typedef struct { long lib_blocks, lib_bytes, dl_open, unknown_frees, lib_allocs_
 int  ledger_available(void);     /* 1 in -DLEDGER builds (non-ASan flavours) */
 void ledger_refresh(void);       /* re-scan the address ranges of the library objects */
 void ledger_get(ledger_t *l);    /* live blocks/bytes allocated by library code, dlopen-dlclose balance */
+void ledger_fail_arm(long nth);  /* the nth allocation made by library code from now on fails once (LEDGER builds) */
+long ledger_fail_disarm(void);   /* disarm; returns 1 if the failpoint fired */
 int  ledger_leakcheck(void);     /* ASan flavour: LeakSanitizer recoverable check (non-zero = leak) */
 #endif
